@@ -14,6 +14,16 @@ import (
 // re-run with a tape log so that its draws become an explicit tape.
 func shrinkCrash(cfg *propCfg, b *build, rf replayFile) replayFile {
 	key := rf.Violation.Kind + "@" + rf.Violation.Site
+	if rf.Violation.Kind == "hang" {
+		// confirm alone with a shorter limit; an unconfirmed hang is infrastructure trouble
+		os.Setenv("VERIF_HANG_MS", "20000")
+		v, _ := replayOnce(cfg, b, &rf)
+		os.Unsetenv("VERIF_HANG_MS")
+		if v == nil || v.Kind != "hang" {
+			infra("a case exceeded the watchdog limit but finished when replayed alone (overloaded machine?): %s", rf.Violation.Site)
+		}
+		return rf
+	}
 	if rf.Random {
 		logPath := filepath.Join(b.scratch, "tapelog.json")
 		os.Remove(logPath)
